@@ -1,6 +1,7 @@
 /- C19: the semantic option view of CoAP re-encodes to the syntactic field sequence. -/
 import Schc.Proofs.Tiling
 import Schc.Proofs.BitsMore
+import Schc.Proofs.Pairs
 import Std.Data.String.ToNat
 
 namespace Schc
@@ -274,11 +275,6 @@ theorem semFid_number (index : Nat) (ln : Option Nat) :
 end Schc
 
 namespace Schc
-
-def pairs (fs : List Field) : List (String × ABuf) := fs.map (fun f => (f.id, f.value))
-
-@[simp] theorem pairs_append (a b : List Field) : pairs (a ++ b) = pairs a ++ pairs b := by simp [pairs]
-@[simp] theorem pairs_nil : pairs [] = [] := rfl
 
 theorem pairs_syn (h : OptHdr) (p1 p2 p3 p4 p5 : Nat) :
     pairs ([⟨Gen.CoAPF.OPTION_DELTA, h.delta, p1⟩, ⟨Gen.CoAPF.OPTION_LENGTH, h.len, p2⟩]
